@@ -30,6 +30,7 @@ def handleCase (mode : String) (id : Nat) (hdr body : List Sexp) : String :=
   | "tools" => Drv.Tools.handle id hdr body
   | "core20" => Drv.Core.handle20 id hdr body
   | "coreinv" => Drv.Core.handleInv id hdr body
+  | "coredump" => Drv.Core.handleDump id hdr body
   | "chain" =>
     -- a chain of n tasks, far deeper than the interpreter's recursion limit: value n, one flush iff the leaf awaits an item
     match hdr, body with
